@@ -31,6 +31,8 @@ CONSTANTS Bases,      \* sequence of basis descriptors [mesh |-> BOOLEAN, elems 
           MaxIts,     \* bound on open iterators
           Ops         \* which calls are explored (subset of the operation names below)
 
+ASSUME \A a, b \in DOMAIN Bases : a # b => Bases[a] # Bases[b]     \* equal bases denote one class object
+
 VARIABLES insts, cc, its, fault, act, reply
 mech == <<insts, cc, its, fault>>
 vars == <<insts, cc, its, fault, act, reply>>
